@@ -19,6 +19,8 @@ import EinoV.Proofs.C02LockStep
 import EinoV.Proofs.C02EagerConfluence
 import EinoV.Model.C03Loop
 import EinoV.Proofs.C03Loop
+import EinoV.Model.C03Fail
+import EinoV.Proofs.C03Fail
 
 namespace EinoV.C03
 open EinoV.Gen
@@ -569,6 +571,110 @@ theorem interrupted_invoke_abandons_with_wait :
       (iAll (intrCase ["r", "x", "y", "j"]) Expected.C03.loopFacts).map (·.out)
         = [.interrupt [] ["r"] ["j"], .ok]) := by decide
 
+/-! ## a batch step in which a node fails while its siblings are still running
+
+  Model: `Model/C03Fail.lean`.  The source fact is `waitAllLoops` (already part of
+  `facts_match`): the loop of `taskManager.waitAll` has no exit but `waitOne` reporting
+  `num == 0`, so the error of a collected execution does not cut the collection short. -/
+
+/-- **failing_step_collects_all.** For every reachable state of the task manager (any schedule
+    so far, batch or eager), every schedule of executor and collector steps that follows and
+    however many of the executions end with an error (`finish t true`): when `waitAll` returns —
+    the run loop then resolves the collected tasks and `Invoke` returns the first node error —
+    nothing is outstanding: `num = 0`, no execution still running, none queued in the list or
+    the channel, and everything ever submitted has been received exactly once.  Covers "every
+    node execution that was started is collected exactly once … the run does not return while
+    started nodes are running" for batch runs that FAIL. -/
+theorem failing_step_collects_all (needAll : Bool) (k : Nat) (s s' : St) (evs : List Ev)
+    (h : Reachable genFacts needAll s)
+    (hp : waitAllPath genFacts FactsC03.waitAllLoops needAll k s evs = some s') :
+    s'.num = 0 ∧ s'.running = [] ∧ s'.l = [] ∧ s'.ch = [] ∧ s'.got.Perm s'.submitted ∧
+    Reachable genFacts needAll s' := by
+  have hl : FactsC03.waitAllLoops = true := by decide
+  rw [hl, waitAllPath_loops genFacts genLoopFacts.submitPreprocessesFirst needAll] at hp
+  have hL : (⟨genLoopFacts.submitPreprocessesFirst, true⟩ : LoopFacts) = genLoopFacts := by decide
+  rw [hL] at hp
+  exact interrupt_path_collects_all needAll k s s' evs h hp
+
+/-- **failing_step_returns.** `waitAll` of a step with failing nodes does return: along every
+    schedule without a further `submit` that runs until no executor and no collector step is
+    possible any more (node bodies terminate, with or without an error). -/
+theorem failing_step_returns (needAll : Bool) (k : Nat) (s s'' : St) (evs : List Ev)
+    (h : Reachable genFacts needAll s) (hns : ∀ e ∈ evs, e.isSubmit = false)
+    (hr : run genFacts needAll s evs = some s'')
+    (hstuck : ∀ e, e.isSubmit = false → step genFacts needAll s'' e = none) :
+    ∃ s', waitAllPath genFacts FactsC03.waitAllLoops needAll k s evs = some s' := by
+  have hl : FactsC03.waitAllLoops = true := by decide
+  rw [hl, waitAllPath_loops genFacts genLoopFacts.submitPreprocessesFirst needAll]
+  have hL : (⟨genLoopFacts.submitPreprocessesFirst, true⟩ : LoopFacts) = genLoopFacts := by decide
+  rw [hL]
+  exact interrupt_path_returns needAll k s s'' evs h hns hr hstuck
+
+/-- non-vacuity: batch mode, a step `[1, 2, 3]` whose inlined execution 1 fails first; `waitAll`
+    has not returned after having received the failing execution, it returns after 2 and 3 -/
+example :
+    ∃ s, Reachable genFacts true s ∧ s.running = [2, 3] ∧ s.errs = [1] ∧
+      waitAllPath genFacts FactsC03.waitAllLoops true 0 s [.recv, .refill] = none ∧
+      ∃ s', waitAllPath genFacts FactsC03.waitAllLoops true 0 s
+              [.recv, .refill, .finish 2 false, .finish 3 false, .recv, .refill, .recv, .refill] = some s' ∧
+        s'.num = 0 ∧ s'.got = [1, 2, 3] :=
+  ⟨⟨[2, 3], [], [1], 3, .idle, [], [1, 2, 3], [1]⟩,
+   ⟨[.submit [1, 2, 3], .finish 1 true], by decide⟩, rfl, rfl, by decide,
+   ⟨[], [], [], 0, .idle, [1, 2, 3], [1, 2, 3], [1]⟩, by decide, rfl, rfl⟩
+
+/-- **failing_step_abandons_with_fail_fast** (negation: the fact is needed).  A `waitAll` that
+    also returns right after having received an erroring execution (`waitAllLoops = false`, the
+    shape of seeded regression C03-22): batch step `[1, 2, 3]`, the inlined execution 1 fails
+    while 2 and 3 are still running — `waitAll` returns with `num = 2`, executions 2 and 3
+    running and never received.  When 1 fails last (2 and 3 finished before it) the same fact
+    loses nothing: whether executions are abandoned depends on the completion order. -/
+theorem failing_step_abandons_with_fail_fast :
+    run Expected.C03.facts true St.init [.submit [1, 2, 3], .finish 1 true]
+      = some ⟨[2, 3], [], [1], 3, .idle, [], [1, 2, 3], [1]⟩ ∧
+    (∃ s', waitAllPath Expected.C03.facts false true 0 ⟨[2, 3], [], [1], 3, .idle, [], [1, 2, 3], [1]⟩
+            [.recv, .refill, .finish 2 false, .finish 3 false, .recv, .refill, .recv, .refill] = some s' ∧
+        s'.num = 2 ∧ s'.running = [2, 3] ∧ s'.got = [1] ∧ s'.submitted = [1, 2, 3]) ∧
+    (∃ s', waitAllPath Expected.C03.facts false true 0 St.init [] = some s' ∧ s'.num = 0) ∧
+    (∃ s s', run Expected.C03.facts true St.init
+              [.submit [1, 2, 3], .finish 2 false, .finish 3 false, .finish 1 true] = some s ∧
+        waitAllPath Expected.C03.facts false true 0 s [.recv, .refill, .recv, .refill, .recv, .refill] = some s' ∧
+        s'.num = 0 ∧ s'.got = [2, 3, 1]) := by
+  refine ⟨by decide, ⟨⟨[2, 3], [], [], 2, .idle, [1], [1, 2, 3], [1]⟩, by decide, rfl, rfl, rfl, rfl⟩,
+    ⟨St.init, by decide, rfl⟩,
+    ⟨⟨[], [3, 1], [2], 3, .idle, [], [1, 2, 3], [1]⟩, ⟨[], [], [], 0, .idle, [2, 3, 1], [1, 2, 3], [1]⟩,
+      by decide, by decide, rfl, rfl⟩⟩
+
+/-! ### engine level: batch runs of graphs with failing nodes -/
+
+/-- **failing_batch_run_collects_all.** For every acyclic graph, every set of failing nodes and
+    every completion priority: when the batch run returns (a value, or the error of the first
+    failing node of the failing step), every execution it started has been received. -/
+theorem failing_batch_run_collects_all (c : FCfg) :
+    fUncollected (fRun c FactsC03.waitAllLoops) = [] := by
+  have hl : FactsC03.waitAllLoops = true := by decide
+  rw [hl]
+  exact fRun_uncollected_nil c
+
+/-- the shape of seeded regression C03-22: START → {f, x, y} → END, `f` fails -/
+def failCase (order : List Key) : FCfg :=
+  { g := { nodes := [⟨"f", ["start"]⟩, ⟨"x", ["start"]⟩, ⟨"y", ["start"]⟩],
+           endPreds := ["f", "x", "y"], input := "in" },
+    bad := ["f"], order := order }
+
+/-- **failing_batch_run_abandons_with_fail_fast** (negation at engine level).  With the
+    fail-fast `waitAll` the run returns the error of `f` with `x` and `y` started and never
+    received when `f` finishes first, with `y` lost when `f` finishes second, with nothing lost
+    when `f` finishes last — what is collected depends on the completion order.  With the fact
+    of the unchanged tree every order collects everything and reports `f`. -/
+theorem failing_batch_run_abandons_with_fail_fast :
+    (fUncollected (fRun (failCase ["f", "x", "y"]) false) = ["x", "y"] ∧
+     fUncollected (fRun (failCase ["x", "f", "y"]) false) = ["y"] ∧
+     fUncollected (fRun (failCase ["x", "y", "f"]) false) = []) ∧
+    ((fRun (failCase ["f", "x", "y"]) true).reported = some "f" ∧
+     (fRun (failCase ["f", "x", "y"]) true).failed = true ∧
+     (fRun (failCase ["f", "x", "y"]) true).collected = ["f", "x", "y"] ∧
+     (fRun (failCase ["x", "f", "y"]) true).collected = ["x", "f", "y"]) := by decide
+
 /-- **pregel_run_schedule_independent** (engine level). For every any-predecessor runner of the
     engine model (`Model/Engine.lean`) with distinct keys and an order-insensitive merge: a run
     that succeeds under one fair completion schedule is *the same run* — same result, same
@@ -660,6 +766,18 @@ theorem dag_returning_run_is_not_outlasted {V : Type} (ops : ValOps V) (hm : Mer
     (hA : (runS ops r sA x).result = .ok v) :
     (runS ops r sB x).trace.length ≤ (runS ops r sA x).trace.length :=
   run_ok_not_outlasted ops hm r wf wf2 wf3 sA sB hfA hfB x v hA
+
+open EinoV.Engine EinoV.Engine.DagRun in
+/-- **dag_success_excludes_node_failures.** If a run returns a value, then under every other fair
+    schedule every task that is executed succeeds: the other run executes, step by step, tasks the
+    returning run executed too (`dag_steps_schedule_independent`, `dag_returning_run_is_not_outlasted`),
+    and a run that returns a value has no failed task.  So a schedule-dependent node failure is
+    impossible; what remains unproved for the other run is only that its scheduling rounds do not fail. -/
+theorem dag_success_excludes_node_failures {V : Type} (ops : ValOps V) (hm : MergePerm ops) (r : Runner V)
+    (wf : DagWF r) (wf2 : DagWF2 r) (wf3 : DagWF3 r) (sA sB : Sched V) (hfA : sA.Fair) (hfB : sB.Fair) (x v : V)
+    (hA : (runS ops r sA x).result = .ok v) :
+    ∀ t, t ∈ (runS ops r sB x).trace.flatten → (outOf r t).isSome = true :=
+  run_ok_other_no_node_failure ops hm r wf wf2 wf3 sA sB hfA hfB x v hA
 
 open EinoV.Engine EinoV.Engine.DagRun in
 /-- **dag_wf3_check_sound.** The executable check of `DagWF3` (evaluated by the C02 oracle on every
